@@ -111,7 +111,7 @@ func walkAll(run *evid.Run, cfgs []sessrep.CfgRec, perCfg, steps int) []sessrep.
 			srv := drv.Start(sessrep.DrvCfg(cfg))
 			defer func() { srv.Stop() }()
 			var mine []sessrep.OneWalk
-			for w := 0; w < perCfg; w++ {
+			for w := 0; w < perCfg && !drv.TooManyHangs(); w++ {
 				seed := run.Seed*1000003 + int64(i)*1009 + int64(w)
 				rng := rand.New(rand.NewSource(seed))
 				evs, hist, err := sessrep.Walk(srv, cfg, rng, steps)
